@@ -19,7 +19,7 @@ from vlib import Result, enc_list, f2b, Toks, close
 PROP = 'C18'
 META = {
     'level_text': 'Lean 4 theorems about (i) definitions REGENERATED on every run from Strength.py by a concolic tracer (mixed, edge and screw contribution formulas, Orowan, line tension) and (ii) hand models of the array logic of Strength.py and GrainGrowth.py: every clipped weak/strong/Orowan contribution is >= 0, the weak/strong sums, the combined precipitate strength, the multi-phase precipitate strength and the total strength are >= 0 (reals, rpow); precipitate strength = Taylor factor x min(weak, strong, Orowan) and 0 when a branch is non-finite (no precipitates); superposition (sum a_i^n)^(1/n) >= every a_j and non-decreasing in every a_i; the traced mixed-dislocation formulas reduce to the traced edge/screw formulas at 90/0 degrees (exact identities for modulus, APB-weak, SFE, interfacial; for the coherency and APB-strong formulas, whose published coefficients are rounded, the reduced form plus bounds on the coefficient ratio); Zener drag: sign in {0, sign g}, |cG| <= |g|, frozen when the drag >= max|g|; third moment = 1 after Normalize, mean size invariant under Normalize; transport with zero nucleation does not increase the number of grains (C07 budget + one-sided ends); one strength row per host step plus the initial row over any number of solve calls; grain-growth clock = host clock after every host step. The generated definitions and the models are tied to the code by differential correspondence on every run, the predicates are evaluated on the real functions and on a real coupled Al-Zr run.',
-    'level_note': 'Monitored only (oracle, not proved): monotone mean grain size without pinning (needs third-moment conservation of the upwind scheme, only approximate); finiteness of IEEE results (the model treats np.isfinite as an arbitrary predicate; non-finite -> 0 is proved, that the real formulas are non-finite exactly for empty distributions is checked numerically); coherency-weak/strong and APB-strong edge/screw agreement is up to the rounding of the published coefficients (1e-5 / 1.5e-3 relative). The inner GrainGrowthModel.solve reaching exactly its end time is C05; here it is checked on the real run. Trusted: Lean kernel + Mathlib, axioms propext/Classical.choice/Quot.sound; the tracer tools/py2lean/sym.py (validated numerically on every run); hand models equal the NumPy code as far as this run compared them; exact-field arithmetic instead of IEEE doubles.',
+    'level_note': 'Monitored only (oracle, not proved): monotone mean grain size without pinning (needs third-moment conservation of the upwind scheme, only approximate); finiteness of IEEE results (the model treats np.isfinite as an arbitrary predicate; non-finite -> 0 is proved, that the real formulas are non-finite exactly for empty distributions is checked numerically); coherency-weak/strong and APB-strong edge/screw agreement is up to the rounding of the published coefficients (1e-5 / 1.5e-3 relative). The inner GrainGrowthModel.solve reaching exactly its end time is C05; here it is checked on the real run. Known finding gg-mean-size-dip-volume-drift: the mean grain size can dip by 1e-5..2e-4 relative in a step where grains leave through the last face of the grid (volume before Normalize < 1); the proved bound Rm_new^3 >= V_new * Rm_old^3 is checked by the oracle on every standalone step. Trusted: Lean kernel + Mathlib, axioms propext/Classical.choice/Quot.sound; the tracer tools/py2lean/sym.py (validated numerically on every run); hand models equal the NumPy code as far as this run compared them; exact-field arithmetic instead of IEEE doubles.',
     'technique': 'Lean 4 proof over generated definitions (py2lean) + hand models + differential correspondence + real coupled run',
     'design_ref': 'DESIGN.md section 6, C18',
 }
@@ -252,6 +252,28 @@ def chk_strength(args):
             st, cmp_, (Mw, Ms, Mo) = sm.combineStrengthContributions(w, s, o.copy(), returnComparison=True)
         w, s = np.asarray(w).reshape(-1, len(rs)), np.asarray(s).reshape(-1, len(rs))
         per_phase.append(st)
+        # which parameters: a mechanism enabled for this phase uses the phase's parameters, otherwise the global ones
+        want_lab = [LABELS[j] for j in range(5) if allOn[j] or on[j]]
+        if list(lab) != want_lab:
+            out.append(('active-contributions', 'active mechanisms for phase %s are %r' % (name, list(lab)), {'allOn': allOn, 'phaseOn': on}, want_lab))
+        else:
+            with np.errstate(all='ignore'):
+                r0w = Ls / np.sqrt(np.cos(sm.psi / 2))
+                for row, lb in enumerate(lab):
+                    j = LABELS.index(lb)
+                    which = name if on[j] else 'all'
+                    for fam, arr, fn, r0 in (('weak', w, MIXED[2 * j], r0w), ('strong', s, MIXED[2 * j + 1], Ls)):
+                        ref = np.asarray(getattr(sm, fn)(rs, Ls, r0, which), dtype=float) * np.ones(len(rs))
+                        ref = np.where(np.isfinite(ref) & (ref >= 0), ref, 0.0)
+                        bad = [i for i in range(len(rs)) if not close(arr[row][i], ref[i], 1e-12)]
+                        if bad:
+                            i = bad[0]
+                            out.append(('phase-parameters:%s' % ('phase-specific' if on[j] else 'global'),
+                                        '%s %s contribution of phase %s is not the formula with the %s parameters' % (fam, lb, name, which),
+                                        {'r': float(rs[i]), 'Ls': float(Ls[i]), 'allOn': allOn, 'phaseOn': on, 'value': float(arr[row][i])}, float(ref[i])))
+                            break
+                    if out:
+                        break
         for i in range(len(rs)):
             kl = klass(rs[i], Ls[i], ri)
             pt = {'r': float(rs[i]), 'Ls': float(Ls[i]), 'ri': ri, 'phase': name}
@@ -358,8 +380,10 @@ def chk_limits(args):
                 with np.errstate(all='ignore'):
                     a = np.asarray(getattr(sm, row[0])(r, Ls, r0), dtype=float) * np.ones(len(r))
                     c = np.asarray(getattr(sm, other)(r, Ls, r0), dtype=float) * np.ones(len(r))
+                # APB weak is a difference of two terms: compare relative to the subtracted term (cancellation)
+                sc = (2 / (sm.s * sm.b * Ls) * 16 * sm.beta * sm.yAPB['all'] * r ** 2 / (3 * np.pi * Ls)) if row[0] == 'APBweak' else np.zeros(len(r))
                 for i in range(len(r)):
-                    if np.isfinite(a[i]) and np.isfinite(c[i]) and not close(a[i], c[i], tol):
+                    if np.isfinite(a[i]) and np.isfinite(c[i]) and not close(a[i], c[i], tol, float(sc[i])):
                         out.append(('limit-%d:%s' % (int(deg), row[0]), '%s at %g degrees differs from %s' % (row[0], deg, other),
                                     {'r': float(r[i]), 'Ls': float(Ls[i]), 'mixed': float(a[i])}, float(c[i]))); break
                     if np.isfinite(a[i]) != np.isfinite(c[i]) and not (np.isnan(a[i]) and np.isnan(c[i])):
@@ -517,9 +541,10 @@ def coupled_run(res, ctx, use_model):
     """Al-Zr precipitation with a StrengthModel and a GrainGrowthModel attached; two solve calls"""
     import kwnruns
     vlib.use_repo()
-    m = kwnruns.build_binary()
+    m = kwnruns.build_binary(x0=6e-3, T=823.15)      # nucleation sets in within ~30 host steps
     sm = SM()()
-    sm.setDislocationParameters(25.4e9, 0.286e-9, 0.34, ri=2 * 0.286e-9, theta=90, psi=120)
+    # core radius 4b: the first precipitates (r ~ 4.3e-10 m) are below half the core radius
+    sm.setDislocationParameters(25.4e9, 0.286e-9, 0.34, ri=4 * 0.286e-9, theta=90, psi=120)
     sm.setCoherencyParameters(0.0075)
     sm.setModulusParameters(68e9)
     sm.setAPBParameters(0.45, 2, 1, 2.8)
@@ -527,7 +552,7 @@ def coupled_run(res, ctx, use_model):
     sm.setSolidSolutionStrength({'ZR': 8e8}, 1)
     sm.setBaseStrength(1e7)
     gg = GG()(1e-7, 1e-5, 60, 40, 80)
-    gg.setGrainBoundaryMobility(10 ** ctx.rng.uniform(-15.5, -14.5))
+    gg.setGrainBoundaryMobility(10 ** ctx.rng.uniform(-13.5, -12.5))      # several grain-growth sub-steps per late host step
     size = gg.pbm.PSDsize
     gg.LoadDistributionFunction(lambda R: np.exp(-0.5 * ((np.log(R) - math.log(2e-6)) / 0.3) ** 2) / R)
     m.addCouplingModel(sm)
@@ -545,8 +570,8 @@ def coupled_run(res, ctx, use_model):
         if len(rows) >= cap:          # safety cap on the run length (the step size of a fresh solve call varies)
             raise kwnruns.StopRun()
     cap = ctx.n(600, 4000)
-    t1 = ctx.rng.uniform(1.0, 2.5)
-    t2 = ctx.n(ctx.rng.uniform(0.5, 1.0), ctx.rng.uniform(20.0, 200.0))
+    t1 = ctx.rng.uniform(3.0, 10.0)
+    t2 = ctx.n(ctx.rng.uniform(20.0, 100.0), ctx.rng.uniform(500.0, 3000.0))
     kwnruns.run(m, t1, observer=obs)          # the observer slot is registered once and stays for later solve calls
     n1 = len(rows)
     kwnruns.run(m, t2)
@@ -565,6 +590,8 @@ def coupled_run(res, ctx, use_model):
                         case, [r['slen'], r['lslen'], r['sslen']], r['n'] + 1); break
         if not close(r['ggt'], r['t'], 1e-9):
             res.violate('grain-clock-misaligned', 'after host step %d (t=%r) the grain-growth clock is %r' % (r['n'], r['t'], r['ggt']), case, r['ggt'], r['t']); break
+        if not (r['z'] >= 0 and math.isfinite(r['z'])):
+            res.violate('coupled-zener-drag', 'Zener drag computed from the host is %r after host step %d' % (r['z'], r['n']), case, r['z'], '>= 0, finite'); break
         if not close(r['m3'], 1.0, 1e-9):
             res.violate('coupled-grain-volume', 'grain volume %r after host step %d' % (r['m3'], r['n']), case, r['m3'], 1.0); break
     if rows and (len(m.pData.time[:m.pData.n + 1]) != sm.rss.shape[0]):
@@ -582,6 +609,8 @@ def coupled_run(res, ctx, use_model):
     gR = np.asarray(gg.avgR, dtype=float)
     free = [k for k, r in enumerate(rows) if r['z'] == 0]
     res.count('F:host-steps-without-pinning', len(free))
+    res.count('F:host-steps-subcore-radius', sum(1 for r in rows if 0 < 2 * r['rss'] < float(sm.ri)))
+    res.count('F:grain-growth-substeps', int(len(gg.time) - 1))
     res.case(('F', ctx.seed, steps), steps > 100 and n1 > 0 and n2 > 0)
     res.traces += 1
     res.sample({'part': 'F', 'host_steps': steps, 'solve_calls': [n1, n2], 'final': {k: rows[-1][k] for k in ('t', 'ggt', 'rss', 'ls', 'ggR', 'z')} if rows else None})
@@ -621,7 +650,7 @@ def corr(ctx, oracle_only=False, scale=1, skip_run=False):
     lines, after = [], []
 
     # ---------------- (A) translator validation
-    for _ in range(ctx.n(400, 6000) * scale):
+    for _ in range(ctx.n(400, 24000) * scale):
         p = gen_params(rng)
         ri = p['ri']
         rs, Ls = gen_points(rng, ri, 1)
@@ -640,7 +669,7 @@ def corr(ctx, oracle_only=False, scale=1, skip_run=False):
             after.append(('gen', {'part': 'A', 'group': group, **{k: v[k] for k in PARAMS}}, impl))
 
     # ---------------- (B)+(C) contributions, combination, multi-phase and total strength
-    for _ in range(ctx.n(300, 5000) * scale):
+    for _ in range(ctx.n(300, 20000) * scale):
         p = gen_params(rng)
         allOn = flags(rng) if rng.random() < 0.8 else [False] * 5
         nph = rng.choice([1, 1, 2, 3])
@@ -648,6 +677,8 @@ def corr(ctx, oracle_only=False, scale=1, skip_run=False):
         for k in range(nph):
             on = flags(rng) if rng.random() < 0.6 else [False] * 5
             phases.append({'name': ['alpha', 'beta', 'gamma'][k], 'on': on, 'q': gen_phase_variant(rng, p)})
+        if nph == 1 and rng.random() < 0.25:      # the default call getStrengthContributions(r, Ls) = phase 'all'
+            phases = [{'name': 'all', 'on': list(allOn), 'q': dict(p)}]
         npts = rng.randint(1, 8)
         rs, Ls = gen_points(rng, p['ri'], npts)
         exps = [rng.choice([1.8, 1.0, 2.0, rng.uniform(1, 3)]), rng.choice([1.8, rng.uniform(1, 3)]), rng.choice([1.4, rng.uniform(1, 3)]), rng.choice([1.8, 1.0, rng.uniform(1, 3)])]
@@ -698,7 +729,7 @@ def corr(ctx, oracle_only=False, scale=1, skip_run=False):
             after.append(('total', {'part': 'C', **args}, tot))
 
     # edge / screw limits on the real functions
-    for _ in range(ctx.n(80, 1200) * scale):
+    for _ in range(ctx.n(80, 4000) * scale):
         p = gen_params(rng)
         rs = [10 ** rng.uniform(-9, -6.5) for _ in range(5)]
         Ls = [10 ** rng.uniform(-8.3, -5.5) for _ in range(5)]
@@ -708,7 +739,7 @@ def corr(ctx, oracle_only=False, scale=1, skip_run=False):
         apply_check(res, 'limits', args)
 
     # ---------------- (D) history sequences
-    for _ in range(ctx.n(150, 3000) * scale):
+    for _ in range(ctx.n(150, 10000) * scale):
         P = rng.randint(1, 3)
         nsolve = rng.randint(1, 3)
         nb = rng.randint(2, 12)
@@ -767,7 +798,7 @@ def corr(ctx, oracle_only=False, scale=1, skip_run=False):
             after.append(('hist', {'part': 'D', 'P': P, 'steps': [len(s) for s in seq_steps]}, n_rows, sm.rss.ravel().tolist(), sm.ls.ravel().tolist(), list(sm.solidStrength)))
 
     # ---------------- (E) grain growth
-    for _ in range(ctx.n(400, 8000) * scale):
+    for _ in range(ctx.n(400, 30000) * scale):
         cMin = 10 ** rng.uniform(-8, -6)
         a = dict(cMin=cMin, cMax=cMin * rng.choice([10, 30, 100]), bins=rng.choice([3, 8, 20, 60, 150]),
                  gbe=rng.uniform(0.1, 1.0), M=10 ** rng.uniform(-16, -12), alpha=rng.choice([1.0, rng.uniform(0.3, 3)]),
@@ -813,7 +844,7 @@ def corr(ctx, oracle_only=False, scale=1, skip_run=False):
                 lines.append('c18.gg %s %s %s %s %s %s %s' % (f2b(a['alpha']), f2b(a['M']), f2b(a['gbe']), f2b(z), enc_list(x), enc_list(size), enc_list(bounds)))
                 after.append(('gg', {'part': 'E', **a}, gr, rate, d, g.pbm._netFlux.copy(), nearr))
     # standalone runs (clock over repeated solve calls, volume, MONITORED mean size)
-    for it in range(ctx.n(4, 60) * scale + 1):
+    for it in range(ctx.n(4, 150) * scale + 1):
         cMin = 10 ** rng.uniform(-7.5, -6.5)
         a = dict(cMin=cMin, cMax=cMin * 100, bins=rng.choice([40, 80]), gbe=0.5, M=10 ** rng.uniform(-15, -13), alpha=1.0,
                  pos=rng.uniform(0.3, 0.6), width=rng.uniform(0.15, 0.4), calls=rng.randint(2, 5), euler=rng.random() < 0.5)
@@ -953,15 +984,12 @@ def replay(ctx, entry):
         for key, what, obs, req in out:
             print('  ', key, what, obs, req)
         return not out
-    if kind == 'coupled':
-        import random
-        ctx.seed = args['seed']
-        ctx.driver_ok = False
-        res = Result()
-        # the run is determined by (t1, t2, mobility) drawn from the seeded rng: redo the whole check for that seed
-        r = corr(vlib.Ctx(PROP, ctx.tier, args['seed']), oracle_only=True)
-        bad = [x for x in r.violations if x['key'].startswith(('coupled', 'strength-history', 'grain-clock'))]
-        for x in bad:
-            print('  ', x['key'], x['what'])
-        return not bad
-    return None
+    # history sequences and the coupled run are determined by the seeded generator: redo the oracle for that seed / tier
+    # and see whether the same violation key comes back
+    c2 = vlib.Ctx(PROP, entry.get('tier', 'quick'), int(entry.get('seed', 0)))
+    c2.driver_ok = False
+    r = corr(c2, oracle_only=True)
+    bad = [x for x in r.violations if x['key'] == v.get('key')] if v.get('key') else r.violations
+    for x in bad[:5]:
+        print('  ', x['key'], x['what'], x['observed'], x['required'])
+    return not bad
